@@ -72,6 +72,7 @@ ASSUMPTIONS = [
 
 H = 1 << 31
 PREFIX = b"\x55"
+SCRIPT_PREFIX = b"\x7a"     # LBRY main net pay-to-script-hash address version
 NULL_SIG_INPUT_SEQUENCE = 0xFFFFFFFF
 
 
@@ -202,11 +203,21 @@ def ref_signature_facts(signed_raw, out_pos):
         raise ValueError("v1 payload without publisherSignature")
     sig, cert_id = PB.get(sigmsg, 3), PB.get(sigmsg, 4)
     h160 = SH.p2pkh_hash_of(txo.script)
-    addr = PREFIX + h160
+    if h160 is not None:
+        addr = PREFIX + h160
+        addr_at = txo.script_offset + len(txo.script) - 22
+    else:
+        # the claim pays a script hash (... OP_HASH160 <20> OP_EQUAL): the address of the old scheme is the script address
+        tail = bytes(txo.script[-23:])
+        if not (len(tail) == 23 and tail[:2] == b"\xa9\x14" and tail[-1:] == b"\x87"):
+            raise ValueError("v1 signed claim pays neither a pubkey hash nor a script hash")
+        h160 = tail[2:22]
+        addr = SCRIPT_PREFIX + h160
+        addr_at = txo.script_offset + len(txo.script) - 21
     addr += B58.checksum(addr)
     unsigned = PB.without_field(p, 5)
     digest = hashlib.sha256(addr + unsigned + cert_id).digest()
-    regions = {"payload": (base, len(p)), "address": (txo.script_offset + len(txo.script) - 22, 20)}
+    regions = {"payload": (base, len(p)), "address": (addr_at, 20)}
     return {"scheme": "v1", "digest": digest, "sig": bytes(sig), "channel_hash": bytes(cert_id)[::-1],
             "regions": regions, "message": unsigned, "h160": h160}
 
@@ -704,9 +715,20 @@ def same_message(scheme, orig_facts, mutated_raw, out_pos):
         ref = OldClaim()
         ref.ParseFromString(orig_facts["message"])
         return unsigned == ref.SerializeToString() and sig == orig_facts["sig"] and \
-            cert_id[::-1] == orig_facts["channel_hash"] and SH.p2pkh_hash_of(txo.script) == orig_facts["h160"]
+            cert_id[::-1] == orig_facts["channel_hash"] and _paid_hash(txo.script) == orig_facts["h160"]
     except Exception:
         return False
+
+
+def _paid_hash(script):
+    """the 20 bytes a claim script pays to: pubkey hash, or script hash for a pay-to-script-hash tail"""
+    h = SH.p2pkh_hash_of(script)
+    if h is not None:
+        return h
+    tail = bytes(script[-23:])
+    if len(tail) == 23 and tail[:2] == b"\xa9\x14" and tail[-1:] == b"\x87":
+        return tail[2:22]
+    return None
 
 
 def _outpoint(raw):
@@ -940,6 +962,7 @@ def legacy_case(draw):
         "first_txid": draw(st.binary(min_size=32, max_size=32)).hex(),
         "first_nout": draw(st.one_of(st.integers(0, 5), st.integers(0, 2 ** 32 - 1))),
         "sweep": draw(st.integers(0, 14)) == 0,
+        "pay": draw(st.sampled_from(["p2pkh", "p2pkh", "p2sh"])),
     }
     if scheme == "v1":
         case["meta"] = {
@@ -1034,9 +1057,10 @@ def run_legacy(case):
         chan_id = SH.claim_id_hash(SH.dsha256(chan_raw), chan_pos)
         h160 = bytes.fromhex(case["h160"])
         first = (bytes.fromhex(case["first_txid"]), case["first_nout"], b"", 0xFFFFFFFF)
+        p2sh = case.get("pay") == "p2sh"
         if scheme == "v1":
             unsigned = build_v1_stream_payload(case["meta"])
-            addr = PREFIX + h160
+            addr = (SCRIPT_PREFIX if p2sh else PREFIX) + h160
             addr += B58.checksum(addr)
             cert_id = chan_id[::-1]
             sig = ref_sign(secret, hashlib.sha256(addr + unsigned + cert_id).digest(), case["high_s"])
@@ -1051,7 +1075,11 @@ def run_legacy(case):
             sig = ref_sign(secret, hashlib.sha256(outpoint + chan_id + message).digest(), case["high_s"])
             payload = b"\x01" + chan_id + sig + message
         outs = [(9 + k, SH.p2pkh_script(bytes([k + 7]) * 20)) for k in range(case["out_pos"])]
-        outs.append((2000, SH.claim_name_script(case["name"].encode(), payload, h160)))
+        if p2sh:
+            outs.append((2000, b"\xb5" + SH.push(case["name"].encode()) + SH.push(payload) + b"\x6d\x75" + SH.p2sh_script(h160)))
+            out.label("claim_pays_script_hash")
+        else:
+            outs.append((2000, SH.claim_name_script(case["name"].encode(), payload, h160)))
         signed_raw = SH.ser_tx(1, [first], outs, 0)
         out_pos = case["out_pos"]
         out.label("scheme_" + scheme, "channel_form_" + case["channel_form"], "high_s" if case["high_s"] else "low_s")
@@ -1084,7 +1112,7 @@ PARTS = [
     Part("legacy", lambda tier: legacy_case(), run_legacy, 120, 1200, quick_shards=2, thorough_shards=8,
          enumerate_cases=enum_real,
          essential=("scheme_v1", "scheme_v2", "high_s", "low_s", "channel_form_v1_cert", "channel_form_v2_der",
-                    "channel_form_v2_compressed", "real_ytsync_v1_legacy", "real_python_ecdsa_signed_v2",
+                    "channel_form_v2_compressed", "claim_pays_script_hash", "real_ytsync_v1_legacy", "real_python_ecdsa_signed_v2",
                     "real_ytsync_v2_der_channel_key", "mut_address", "mut_payload", "mut_signature",
                     "mut_channel_pubkey", "full_payload_sweep")),
 ]
